@@ -1,4 +1,5 @@
 """Per-property check definitions (what to build, what to run, how many cases per tier)."""
+import re
 
 def T(ctx, quick, thorough):
     return quick if ctx.tier == 'quick' else thorough
@@ -122,11 +123,38 @@ def c20(ctx, spec):
     ctx.extra['digests_compared_across_configurations'] = compared
     if compared < nd: ctx.inconclusive.append('only %d of %d digests could be compared across build configurations' % (compared, 2 * nd)) if compared < nd // 2 else None
 
+# ---------------------------------------------------------------------------------------------- C13
+def c13(ctx, spec):
+    import subprocess
+    types = (0, 1) if ctx.tier == 'quick' else (0, 1, 2, 3)
+    builds = [dict(name='c13_g%d_t%d' % (g, t), src='harness/c13_blas.cpp', cfg='asan_noleak', defs=['C13_G=%d' % g, 'C13_T=%d' % t], libs=['-lopenblas'], env={'OPENBLAS_NUM_THREADS': '1'}, may_fail=(g == 2 and t == 3)) for g in (1, 2, 3) for t in types]
+    if ctx.tier == 'thorough': builds += [dict(name='c13vg_g%d_t%d' % (g, t), src='harness/c13_blas.cpp', cfg='vg', defs=['C13_G=%d' % g, 'C13_T=%d' % t], libs=['-lopenblas']) for g in (1, 3) for t in (0, 1)]
+    ctx.build(builds)
+    for b in builds:
+        bb = ctx.built[b['name']]
+        if not bb['ok']:
+            if b.get('may_fail'): ctx.notes.append('%s does not compile on this tree (complex<float> gemm: beta comparison in core.hpp): not exercised' % b['name'])
+            continue
+        n = int(subprocess.run([bb['bin'], '--list'], stdout=subprocess.PIPE, env=ctx.run_env(bb)).stdout.decode().strip() or 0)
+        if b['cfg'] == 'vg': ctx.run_sharded(b['name'], min(n, 1500), shards=8, timeout=3000)
+        else: ctx.run_sharded(b['name'], n, shards=(12 if n > 100000 else 4))
+    # a worker killed by heap corruption / a signal inside BLAS is an out-of-bounds write that did not stay inside the canaries
+    for v in ctx.violations:
+        if re.search(r':(abort|segv|asan:[\w\-]+|exit\(\w+\)|memcheck:[\w\-]+)$', v['key']): v['key'] = re.sub(r':(abort|segv|asan:[\w\-]+|exit\(\w+\)|memcheck:[\w\-]+)$', ':oob-write', v['key'])
+    ctx.extra['outcomes'] = {k: v for k, v in ctx.counters.items() if k in ('computed-ok', 'rejected', 'rejected:assertion', 'rejected:exception')}
+    ctx.extra['not_compilable_on_pinned_tree'] = ['blas::asum (result type deduced as int / no matching core::asum)', 'blas::iamax in assertion-enabled builds (assert(!offset(x)) names an inaccessible base)', 'complex<float> gemm (beta comparison in core.hpp) if the TU fails to build']
+
 HIST_RULE = ('histories (3..12 steps quick, ..40 thorough) over a pool of 4 owning arrays of one (element type, rank, allocator traits): 26 operation kinds (sizing/fill/allocator-extended/copy/move/view/init-list/iterator constructors, copy/move/self assignment over '
              'every prior state, assignment from views/other element type/init lists/ranges, swap, decay, 3 reextent overloads, clear, ={}, reshape, assign(first,last), element writes, destroy); unique ids as values; extents 0..3. '
              'After EVERY step: each live array vs. its model value, storage ranges pairwise disjoint, live-object registry == sum of num_elements, outstanding blocks == non-empty arrays with matching sizes, block owner == get_allocator(), get_allocator() == what the traits prescribe. ')
 
 REGISTRY = {
+    'C13': dict(fn=c13, level='exploration', exhaustive=True,
+                rule='exhaustive enumeration (case k = mixed-radix index): gemm {in-place, C=gemm, C+=gemm, +gemm} x A,B,C layouts {row-major contiguous, row-major padded sub-block, column-major contiguous, column-major padded} x m,n,k in 0..3 x 3 (alpha,beta) pairs x (complex: N/J/H on A and B); '
+                     'gemv {in-place, y=gemv} x 4 matrix layouts x 4x4 vector layouts (unit, strided, column of padded matrix, row of padded matrix) x m,n in 0..3 x scalars; axpy, scal, copy, swap, dot (u/c forms), nrm2 on 4x4 vector layouts x n in 0..4; herk, syrk, trsm x layouts x both triangles x n,k in 0..3; double and complex<double> (thorough: float, complex<float>, and memcheck). '
+                     'Oracle: naive reference on small-integer data (exact), guarded buffers: 64 canaries around each root and poisoned padding inside it, inputs compared bit for bit; outcome classes computed-ok | rejected (exception or assertion: allowed) | wrong | oob-write | input-modified. '
+                     'distinct = (operation, layout tuple, element type, size class 0/1/n per extent, scalar class); non-trivial = non-empty output',
+                assumptions=['OpenBLAS reads/writes are invisible to ASan: canaries + poisoned padding in quick, valgrind memcheck in thorough', 'asum/iamax are not compilable in assertion-enabled builds at the pinned commit and are not exercised']),
     'C20': dict(fn=c20, level='exploration',
                 rule='three monitors. (1) silence: the valid workloads of C01, C03, C05, C07 and E-HIST run with assertions on; any library assertion is a violation; evidence lists the assertion sites evaluated (count per file:line) so that silence is not vacuous. '
                      '(2) configuration independence: a digest of every observable result (sizes, strides, element offsets through brackets and elements(), iterator differences, ==/!=/<, copies, sort, reverse, reextent, view assignment, swap) of random view programs is computed in three builds '
